@@ -27,7 +27,7 @@ class PathTimeout(BaseException):
     swallowed by `except Exception` in the code under test)."""
 
 
-class HarnessError(Exception):
+class HarnessError(BaseException):
     """The harness / code under test was not deterministic along a replayed
     prefix, or the solver answered unknown.  Never a violation."""
 
